@@ -35,51 +35,7 @@ func checkC15(r *core.Run) {
 		cl("role", guard.Eq("*.Role", "#2")),
 	}, 1)
 
-	// ---- G-elig-2: the return that hands out a node
-	f2 := "node/keeper.Keeper.GetNextSuperNodes"
-	if fn := r.Func("G-elig-2", f2); fn != nil {
-		res := r.Resolver(fn)
-		ck := &guard.Checker{P: r.P, Fn: fn, Res: res}
-		sn := "elem(node/keeper.Keeper.GetAllSuperNodes())"
-		pl2 := fGetPledge + "(" + sn + ".Creator)"
-		clauses := []clause{
-			cl("not-in-ignore-list", guard.ForAll("#4", guard.Ne("elem(#4)", sn+".Creator"))),
-			cl("pledge-exists", guard.True(pl2+"#1")),
-			cl("free-capacity>=size", guard.Ge("("+pl2+"#0.TotalStorage - "+pl2+"#0.UsedStorage)", "#5")),
-			cl("status-mask", guard.Eq("(#2 & "+sn+".Status)", "#2")),
-			cl("reputation-floor", guard.Ge(sn+".Reputation", "#3")),
-		}
-		n := 0
-		for _, b := range fn.Blocks {
-			ret, ok := b.Instrs[len(b.Instrs)-1].(*ssa.Return)
-			if !ok || len(ret.Results) != 1 {
-				continue
-			}
-			rt := res.Of(ret.Results[0]).String()
-			if rt == "nil" || strings.HasPrefix(rt, "zero:") {
-				continue // the empty node: "none found"
-			}
-			n++
-			for _, c := range clauses {
-				key := core.Key("G-elig-2", f2, fmt.Sprintf("return node#%d", n), c.Name)
-				if ok, w := ck.MustPass(b, c.Atoms); ok {
-					r.Discharge("G-elig-2", key, r.P.Pos(ret.Pos()), "every path to this return passes "+c.Atoms[0].Desc)
-				} else {
-					r.Violate("G-elig-2", key, r.P.Pos(ret.Pos()), "GetNextSuperNodes can hand out a super node without "+c.Name, w...)
-				}
-			}
-			// the ignore test: a match forbids the return in the same round
-			key := core.Key("G-elig-2", f2, fmt.Sprintf("return node#%d", n), "ignored-node-not-returned")
-			if ok, w := ck.MustAvoid(b, []guard.Atom{guard.Eq("elem(#4)", sn+".Creator")}); ok {
-				r.Discharge("G-elig-2", key, r.P.Pos(ret.Pos()), "no path on which an ignore-list entry equals the candidate reaches the return within the same round")
-			} else {
-				r.Violate("G-elig-2", key, r.P.Pos(ret.Pos()), "a super node found in the ignore list can still be returned", w...)
-			}
-		}
-		if n == 0 {
-			r.Undecide("G-elig-2", core.Key("G-elig-2", f2, "returns"), r.P.FuncPos(fn), "vacuous: no node-returning exit found")
-		}
-	}
+	ruleElig2(r)
 
 	// ---- G-distinct
 	f3 := "node/keeper.Keeper.RandomIndex"
@@ -441,3 +397,55 @@ func accumulatesAll(r *core.Run, fn *ssa.Function, v ssa.Value) (bool, string) {
 }
 
 var _ = term.AllFields
+
+// ruleElig2 (G-elig-2): shared by C15 (eligibility, ignore list) and C12 (a
+// stalled shard is handed to a provider other than those already holding
+// shards of the order).
+func ruleElig2(r *core.Run) {
+	// ---- G-elig-2: the return that hands out a node
+	f2 := "node/keeper.Keeper.GetNextSuperNodes"
+	if fn := r.Func("G-elig-2", f2); fn != nil {
+		res := r.Resolver(fn)
+		ck := &guard.Checker{P: r.P, Fn: fn, Res: res}
+		sn := "elem(node/keeper.Keeper.GetAllSuperNodes())"
+		pl2 := fGetPledge + "(" + sn + ".Creator)"
+		clauses := []clause{
+			cl("not-in-ignore-list", guard.ForAll("#4", guard.Ne("elem(#4)", sn+".Creator"))),
+			cl("pledge-exists", guard.True(pl2+"#1")),
+			cl("free-capacity>=size", guard.Ge("("+pl2+"#0.TotalStorage - "+pl2+"#0.UsedStorage)", "#5")),
+			cl("status-mask", guard.Eq("(#2 & "+sn+".Status)", "#2")),
+			cl("reputation-floor", guard.Ge(sn+".Reputation", "#3")),
+		}
+		n := 0
+		for _, b := range fn.Blocks {
+			ret, ok := b.Instrs[len(b.Instrs)-1].(*ssa.Return)
+			if !ok || len(ret.Results) != 1 {
+				continue
+			}
+			rt := res.Of(ret.Results[0]).String()
+			if rt == "nil" || strings.HasPrefix(rt, "zero:") {
+				continue // the empty node: "none found"
+			}
+			n++
+			for _, c := range clauses {
+				key := core.Key("G-elig-2", f2, fmt.Sprintf("return node#%d", n), c.Name)
+				if ok, w := ck.MustPass(b, c.Atoms); ok {
+					r.Discharge("G-elig-2", key, r.P.Pos(ret.Pos()), "every path to this return passes "+c.Atoms[0].Desc)
+				} else {
+					r.Violate("G-elig-2", key, r.P.Pos(ret.Pos()), "GetNextSuperNodes can hand out a super node without "+c.Name, w...)
+				}
+			}
+			// the ignore test: a match forbids the return in the same round
+			key := core.Key("G-elig-2", f2, fmt.Sprintf("return node#%d", n), "ignored-node-not-returned")
+			if ok, w := ck.MustAvoid(b, []guard.Atom{guard.Eq("elem(#4)", sn+".Creator")}); ok {
+				r.Discharge("G-elig-2", key, r.P.Pos(ret.Pos()), "no path on which an ignore-list entry equals the candidate reaches the return within the same round")
+			} else {
+				r.Violate("G-elig-2", key, r.P.Pos(ret.Pos()), "a super node found in the ignore list can still be returned", w...)
+			}
+		}
+		if n == 0 {
+			r.Undecide("G-elig-2", core.Key("G-elig-2", f2, "returns"), r.P.FuncPos(fn), "vacuous: no node-returning exit found")
+		}
+	}
+
+}
